@@ -424,6 +424,27 @@ pub struct Foreign {
     pub alg_null: bool,
     pub opts: Opts,
     pub fault: Fault,
+    /// Evaluate at the wall clock: `when` is replaced by the current time when
+    /// the case runs (window edges kept at least two minutes away from it), and
+    /// the clock-based entry points (`validate`) are asked as well as
+    /// `validate_at(now)`.
+    #[serde(default)]
+    pub at_clock: bool,
+}
+
+impl Foreign {
+    /// The case as it is run: with `at_clock`, placed around the current time.
+    fn materialised(&self) -> Foreign {
+        if !self.at_clock {
+            return self.clone();
+        }
+        let far = |w: Win| match w {
+            Win::Around(a, b) => Win::Around(a.max(120), b.max(120)),
+            Win::Past(d) => Win::Past(d.max(120)),
+            Win::Future(d) => Win::Future(d.max(120)),
+        };
+        Foreign { when: chrono::Utc::now().timestamp(), ee_win: far(self.ee_win), crl_win: far(self.crl_win), ..self.clone() }
+    }
 }
 
 fn ext_spec_strategy() -> BoxedStrategy<ExtSpec> {
@@ -540,6 +561,7 @@ fn foreign_strategy(_: Tier) -> BoxedStrategy<Foreign> {
         prop_oneof![3 => ymd(2024, 1, 1)..ymd(2049, 1, 1), 1 => ymd(2049, 12, 31)..ymd(2050, 1, 2), 1 => ymd(2050, 1, 2)..ymd(2090, 1, 1)],
         win_strategy(),
         win_strategy(),
+        prop::bool::weighted(0.2),
     );
     let ee = (prop::bool::weighted(0.6), prop_oneof![5 => Just(None), 4 => Just(Some(false)), 1 => Just(Some(true))],
         prop::collection::vec(ext_spec_strategy(), 0..3), prop::bool::weighted(0.3));
@@ -569,7 +591,7 @@ fn foreign_strategy(_: Tier) -> BoxedStrategy<Foreign> {
         fault_strategy(),
     )
         .prop_map(
-            |(content, (issuer, ee_key, mut serial), (when, ee_win, crl_win), (ee_aki, ee_bc, ee_exts, ee_key_usage),
+            |(content, (issuer, ee_key, mut serial), (when, ee_win, crl_win, at_clock), (ee_aki, ee_bc, ee_exts, ee_key_usage),
               (crl_aki, crl_number, crl_exts, revoked_others, revoked_has_ee, (revoked_pos, revoked_mode)), (mut extra_attrs, size), alg_null, opts, fault)| {
                 if let Some(target) = size {
                     size_extra_attrs(&mut extra_attrs, opts, target);
@@ -581,7 +603,7 @@ fn foreign_strategy(_: Tier) -> BoxedStrategy<Foreign> {
                 let crl_number = if !crl_aki && crl_number.is_none() && crl_exts.is_empty() { Some(1) } else { crl_number };
                 Foreign {
                     content, issuer, ee_key, serial, when, ee_win, crl_win, ee_aki, ee_bc, ee_exts, ee_key_usage, crl_aki, crl_number,
-                    crl_exts, revoked_others, revoked_has_ee, revoked_pos, revoked_mode, extra_attrs, alg_null, opts, fault,
+                    crl_exts, revoked_others, revoked_has_ee, revoked_pos, revoked_mode, extra_attrs, alg_null, opts, fault, at_clock,
                 }
             },
         )
@@ -792,7 +814,46 @@ fn decode_diagnostics(bytes: &[u8]) -> String {
     out
 }
 
+/// The other public routes to the verdict on a foreign message: strict-mode
+/// decoding (the writer emits DER throughout), the outer unsigned layers in
+/// BER dress as streaming encoders emit them, and - for cases placed at the
+/// wall clock - the clock-based `validate`. All must agree with
+/// `decode(.., false)` + `validate_at`.
+fn other_routes(c: &Foreign, bytes: &[u8], vkey: &rpki::crypto::PublicKey, got: &Result<(), String>, obs: &mut Obs) -> CheckResult {
+    let run = |what: &str, b: &[u8], strict: bool| -> Result<Result<(), String>, Fail> {
+        no_panic(what, || match SignedMessage::decode(b, strict) {
+            Err(e) => Err(format!("decode: {}", e)),
+            Ok(m) => m.validate_at(vkey, lib_time(c.when)).map_err(|e| e.to_string()),
+        })
+    };
+    let strict = run("strict decode", bytes, true)?;
+    ensure_sig!(strict.is_ok() == got.is_ok(), "c10:routes-disagree",
+        "a DER-encoded message gets {:?} through SignedMessage::decode(.., true) but {:?} through decode(.., false) (fault {:?}, {} extra signed attributes)",
+        strict, got, c.fault, c.extra_attrs.len());
+    if !matches!(c.fault, Fault::Bytes(_)) {
+        for style in 1..=3u8 {
+            let Ok(ber) = der::ber_outer_framing(bytes, style) else { continue };
+            let r = run("BER-framed decode", &ber, false)?;
+            ensure_sig!(r.is_ok() == got.is_ok(), "c10:routes-disagree",
+                "the message with its unsigned outer layers in BER framing (style {}) gets {:?}, in DER {:?} (fault {:?})", style, r, got, c.fault);
+            obs.label("ber-framed");
+        }
+    }
+    if c.at_clock {
+        obs.label("at-clock");
+        let r = no_panic("validate (clock)", || match SignedMessage::decode(bytes, false) {
+            Err(e) => Err(format!("decode: {}", e)),
+            Ok(m) => m.validate(vkey).map_err(|e| e.to_string()),
+        })?;
+        ensure_sig!(r.is_ok() == got.is_ok(), "c10:routes-disagree",
+            "SignedMessage::validate (evaluation time = the clock) says {:?}, validate_at(now) says {:?} (fault {:?}, EE revoked: {}, windows {:?} / {:?})",
+            r, got, c.fault, c.revoked_has_ee, c.ee_win, c.crl_win);
+    }
+    Ok(())
+}
+
 fn run_foreign(c: &Foreign, obs: &mut Obs) -> CheckResult {
+    let c = &c.materialised();
     let issuer = c.issuer as usize % POOL_SIZE;
     let content = c.content.bytes();
     let (bytes, attrs_len) = build_foreign(c, oids::CT_PROTOCOL, &content)?;
@@ -817,6 +878,7 @@ fn run_foreign(c: &Foreign, obs: &mut Obs) -> CheckResult {
     };
     label_foreign(c, attrs_len, expect, obs);
     crl_ext_finding(c, expect, &got)?;
+    other_routes(c, &bytes, &vkey, &got, obs)?;
     verdict("foreign", expect, &got, attrs_len, &|| {
         format!(
             "fault={:?} ee_win={:?} crl_win={:?} ee_bc={:?} revoked_has_ee={} others={} ee_aki={} crl_aki={} extra_attrs={}",
@@ -910,6 +972,7 @@ fn run_proto(c: &Proto, obs: &mut Obs) -> CheckResult {
         (AnyMsg::Publ(_), true) => "publication:foreign",
     });
     if let Some(f) = &c.foreign {
+        let f = &f.materialised();
         // independently wrapped protocol XML
         let xml = match &msg {
             AnyMsg::Prov(m) => m.to_xml_bytes(),
@@ -942,6 +1005,28 @@ fn run_proto(c: &Proto, obs: &mut Obs) -> CheckResult {
         };
         label_foreign(f, attrs_len, expect, obs);
         crl_ext_finding(f, expect, &got)?;
+        // the protocol wrappers on the same message in BER framing, and with the clock
+        if !matches!(f.fault, Fault::Bytes(_)) {
+            for style in 1..=3u8 {
+                let Ok(ber) = der::ber_outer_framing(&bytes, style) else { continue };
+                let r: Result<(), String> = no_panic("protocol wrapper on BER framing", || match &msg {
+                    AnyMsg::Prov(_) => ProvisioningCms::decode(&ber).map_err(|e| format!("decode: {}", e)).and_then(|cms| cms.validate_at(&vkey, lib_time(f.when)).map_err(|e| e.to_string())),
+                    AnyMsg::Publ(_) => PublicationCms::decode(&ber).map_err(|e| format!("decode: {}", e)).and_then(|cms| cms.validate_at(&vkey, lib_time(f.when)).map_err(|e| e.to_string())),
+                })?;
+                ensure_sig!(r.is_ok() == got.is_ok(), "c10:routes-disagree",
+                    "protocol message with its unsigned outer layers in BER framing (style {}) gets {:?}, in DER {:?} (fault {:?}, {:?})", style, r, got, f.fault, c.msg);
+                obs.label("ber-framed");
+            }
+        }
+        if f.at_clock {
+            obs.label("at-clock");
+            let r: Result<(), String> = no_panic("validate (clock)", || match &msg {
+                AnyMsg::Prov(_) => ProvisioningCms::decode(&bytes).map_err(|e| format!("decode: {}", e)).and_then(|cms| cms.validate(&vkey).map_err(|e| e.to_string())),
+                AnyMsg::Publ(_) => PublicationCms::decode(&bytes).map_err(|e| format!("decode: {}", e)).and_then(|cms| cms.validate(&vkey).map_err(|e| e.to_string())),
+            })?;
+            ensure_sig!(r.is_ok() == got.is_ok(), "c10:routes-disagree",
+                "validate (evaluation time = the clock) of the protocol wrapper says {:?}, validate_at(now) says {:?} (fault {:?}, EE revoked: {})", r, got, f.fault, f.revoked_has_ee);
+        }
         return verdict("protocol/foreign", expect, &got, attrs_len, &|| format!("fault={:?} msg={:?}", f.fault, c.msg));
     }
 
